@@ -159,3 +159,180 @@ def shrink_expr(e):
             nk = kids[:i] + [k2] + kids[i + 1:]
             res.append((e[0], e[1]) + tuple(nk) if e[0] in "12" else ("3",) + tuple(nk))
     return res
+
+
+# ---- macro expansion (differential stream: cppcheck -E vs gcc -E)
+import re as _re
+
+PFX = ["", "", "L", "u8", "u", "U"]
+STR_BODIES = ["abc", "a b", "", "a\\\"b", "x\\\\y", "wide\\\\name", "q\\n", "%d", "a'b"]
+CHR_BODIES = ["x", "\\\"", "\\\\", "\\'", "0", "\\n"]
+IDS = ["foo", "bar", "x1", "_t", "n"]
+NUMS = ["0", "1", "42", "0x1F", "1.5", "1e3", "7u"]
+PUNCT = ["+", "-", "*", "/", "<", ">", "==", "&&", "!", "<<", "->", "=", "%", "|", "~", "?", ":"]
+
+
+def lit(rng):
+    if rng.random() < 0.6:
+        return rng.choice(PFX) + '"' + rng.choice(STR_BODIES) + '"'
+    return rng.choice(["", "", "L", "u", "U", "u8"]) + "'" + rng.choice(CHR_BODIES) + "'"
+
+
+def plain_tok(rng, p_lit=0.25):
+    r = rng.random()
+    if r < p_lit:
+        return lit(rng)
+    if r < p_lit + 0.3:
+        return rng.choice(IDS)
+    if r < p_lit + 0.5:
+        return rng.choice(NUMS)
+    return rng.choice(PUNCT)
+
+
+def join_toks(rng, toks):
+    """tokens with 0/1 blanks where harmless (never gluing two tokens into one)"""
+    out = ""
+    for t in toks:
+        if out and (rng.random() < 0.6 or _re.match(r"[\w.'\"]", t[0]) and _re.match(r"[\w.]", out[-1])
+                    or (out[-1] in "+-<>=&|!*/%:.~?" and t[0] in "+-<>=&|*/%:.>~?!")
+                    or (out[-1] in "LuU8" and t[0] in "'\"")
+                    or (len(t) > 2 and t[0] in "LuU" and ("'" in t[:3] or '"' in t[:3]))):
+            out += " "
+        out += t
+    return out
+
+
+def gen_macros(rng):
+    """list of (name, params or None, variadic, body text)"""
+    n = rng.randint(3, 7)
+    macros = []
+    names = []
+    pasted = {}            # macro name -> set of parameter indices that reach a ## operand
+    for i in range(n):
+        fl = rng.random() < 0.7
+        name = ("F%d" if fl else "OBJ%d") % i
+        if not fl:
+            body = []
+            for _ in range(rng.randint(0, 4)):
+                r = rng.random()
+                if names and r < 0.3:
+                    body.append(rng.choice(names + [name]))
+                else:
+                    body.append(plain_tok(rng, 0.1))
+            macros.append((name, None, False, join_toks(rng, body)))
+        else:
+            np = rng.randint(0, 3)
+            var = rng.random() < 0.2
+            ps = ["p%d" % k for k in range(np)]
+            use = ps + (["__VA_ARGS__"] if var else [])
+            body = []
+            pasted[name] = set()
+            def mark(tok):
+                if tok in ps:
+                    pasted[name].add(ps.index(tok))
+            for _ in range(rng.randint(1, 5)):
+                r = rng.random()
+                if use and r < 0.2:
+                    body += ["#", rng.choice(use)]
+                elif use and r < 0.35:
+                    a = rng.choice(ps + IDS[:2]) if ps else rng.choice(IDS[:2])
+                    b = rng.choice(ps + ["1", "x"]) if ps else rng.choice(["1", "x"])
+                    body += [a, "##", b]
+                    mark(a)
+                    mark(b)
+                elif use and r < 0.6:
+                    body.append(rng.choice(use))
+                elif names and r < 0.8:
+                    m = rng.choice(names + [name])
+                    if m.startswith("F"):
+                        ar = next((len(x[1]) + (1 if x[2] else 0) for x in macros if x[0] == m), np)
+                        cargs = [(rng.choice(ps) if ps and k in pasted.get(m, ()) else (rng.choice(ps) if ps else rng.choice(IDS))) if (ps or k not in pasted.get(m, ())) else rng.choice(IDS)
+                                 for k in range(ar)]
+                        for k, ca in enumerate(cargs):
+                            if k in pasted.get(m, ()):
+                                mark(ca)
+                        body += [m, "("] + sum([[ca] + ([","] if k < ar - 1 else []) for k, ca in enumerate(cargs)], []) + [")"]
+                    else:
+                        body.append(m)
+                else:
+                    body.append(plain_tok(rng, 0.1))
+            macros.append((name, ps, var, join_toks(rng, body), pasted[name]))
+        names.append(name)
+    return [m if len(m) == 5 else m + (set(),) for m in macros]
+
+
+def gen_arg(rng, macros, depth):
+    toks = []
+    for _ in range(rng.choice([0, 1, 1, 2, 3])):
+        r = rng.random()
+        if depth > 0 and r < 0.3:
+            toks.append(gen_call(rng, macros, depth - 1))
+        elif r < 0.4:
+            toks += ["(", plain_tok(rng), ",", plain_tok(rng), ")"]
+        else:
+            toks.append(plain_tok(rng, 0.35))
+    return join_toks(rng, toks)
+
+
+def gen_call(rng, macros, depth):
+    name, ps, var, _, pst = rng.choice(macros)
+    if ps is None:
+        return name
+    if rng.random() < 0.05:
+        return name                       # function-like name without arguments
+    n = len(ps) + (rng.randint(0, 2) if var else 0)
+    args = [rng.choice(IDS + ["7", "x2", ""]) if k in pst else gen_arg(rng, macros, depth) for k in range(n)]
+    if len(ps) + (1 if var else 0) == 1 and n == 0:
+        args = [""]
+    return name + "(" + rng.choice([",", ", "]).join(args) + ")"
+
+
+def gen_macro_file(rng, nuse=8):
+    macros = gen_macros(rng)
+    lines = []
+    for name, ps, var, body, _ in macros:
+        if ps is None:
+            lines.append("#define %s %s" % (name, body))
+        else:
+            lines.append("#define %s(%s) %s" % (name, ", ".join(ps + (["..."] if var else [])), body))
+    uses = [gen_call(rng, macros, rng.randint(0, 4)) + " " + join_toks(rng, [plain_tok(rng) for _ in range(rng.randint(0, 2))]) for _ in range(nuse)]
+    return lines, uses
+
+
+def macro_source(defs, uses):
+    return "\n".join(defs) + "\n" + "".join("KK%d %s ;\n" % (i, u) for i, u in enumerate(uses))
+
+
+_TOK = _re.compile(r"""(?:u8|u|U|L)?"(?:\\.|[^"\\\n])*"|(?:u8|u|U|L)?'(?:\\.|[^'\\\n])*'|[A-Za-z_]\w*|\.?\d(?:[eEpP][+-]|[\w.])*|"""
+                   r"""<<=|>>=|\.\.\.|->|\+\+|--|<<|>>|<=|>=|==|!=|&&|\|\||\+=|-=|\*=|/=|%=|&=|\^=|\|=|##|\S""")
+
+
+def pp_tokens(text):
+    return _TOK.findall(text)
+
+
+def split_uses(text, n):
+    """token lists per KK<i> marker; None if a marker is missing"""
+    toks = pp_tokens(text)
+    idx = {}
+    for j, t in enumerate(toks):
+        m = _re.fullmatch(r"KK(\d+)", t)
+        if m and int(m.group(1)) not in idx:
+            idx[int(m.group(1))] = j
+    if sorted(idx) != list(range(n)):
+        return None
+    order = sorted(idx.items(), key=lambda kv: kv[1])
+    res = {}
+    for (i, j), nxt in zip(order, [p for _, p in order[1:]] + [len(toks)]):
+        res[i] = toks[j + 1:nxt]
+    return [res[i] for i in range(n)]
+
+
+def norm_apos(toks):
+    """\\' -> ' inside string literal tokens (simplecpp escapes apostrophes when stringizing: same denotation)"""
+    return [_re.sub(r"\\(.)", lambda m: "'" if m.group(1) == "'" else m.group(0), t) if t.endswith('"') and len(t) > 1 else t for t in toks]
+
+
+def norm_ws(toks):
+    """additionally drop blanks inside string literal tokens (whitespace kept/dropped differently when stringizing)"""
+    return [_re.sub(r"[ \t]+", "", t) if t.endswith('"') and len(t) > 1 else t for t in norm_apos(toks)]
